@@ -73,7 +73,8 @@ def run(res, tier, seed):
             tc = pd.DataFrame(np.array([[1.0, 3.0], [5.0, 2.0], [2.0, 7.0]]), index=np.array([0.5, 1.5, 2.5]), columns=[0, 1])
             feat_v = np.mod(np.arange(n), 3).astype(float) + 0.5
             dct = {0: t.copy(), 1: t[::2].copy()}
-            caller = {"t": t, "d": d, "d2": d2, "s": s, "e": e, "kern": kern, "kern2": kern2, "tc": tc, "feat_v": feat_v, "dct0": dct[0], "dct1": dct[1]}
+            cut = np.array([2.0, 8.0])
+            caller = {"t": t, "d": d, "d2": d2, "s": s, "e": e, "kern": kern, "kern2": kern2, "tc": tc, "feat_v": feat_v, "dct0": dct[0], "dct1": dct[1], "cut": cut}
             before = {k: (v.copy(deep=True) if isinstance(v, pd.DataFrame) else v.copy()) for k, v in caller.items()}
             ep = nap.IntervalSet(s, e)
             x = nap.Tsd(t, d, time_support=ep)
@@ -86,8 +87,9 @@ def run(res, tier, seed):
             calls = {
                 "convolve": lambda: (x.convolve(kern), fr.convolve(kern2), x.convolve(kern, ep=ep, trim="left")),
                 "smooth": lambda: x.smooth(0.5, size_factor=5),
-                "filters": lambda: (nap.apply_lowpass_filter(reg, 5.0, mode="sinc"), nap.apply_highpass_filter(reg, 5.0, mode="sinc"), nap.apply_bandpass_filter(reg, (2.0, 8.0), mode="sinc"),
-                                    nap.apply_bandstop_filter(reg, (2.0, 8.0), mode="sinc"), nap.apply_lowpass_filter(reg, 5.0, mode="butter")),
+                "filters": lambda: (nap.apply_lowpass_filter(reg, 5.0, mode="sinc"), nap.apply_highpass_filter(reg, 5.0, mode="sinc"), nap.apply_bandpass_filter(reg, cut, mode="sinc"),
+                                    nap.apply_bandstop_filter(reg, cut, mode="sinc"), nap.apply_lowpass_filter(reg, 5.0, mode="butter"), nap.apply_bandpass_filter(reg, cut, mode="butter"),
+                                    nap.get_filter_frequency_response(cut, 100.0, "bandpass", "sinc"), nap.get_filter_frequency_response(cut, 100.0, "bandpass", "butter")),
                 "correlograms": lambda: (nap.compute_autocorrelogram(g, 0.5, 2.0), nap.compute_crosscorrelogram(g, 0.5, 2.0), nap.compute_eventcorrelogram(g, nap.Ts(t[::3]), 0.5, 2.0)),
                 "tuning": lambda: (nap.compute_1d_tuning_curves(g, feat, 3), nap.compute_discrete_tuning_curves(g, {"a": ep}), nap.compute_1d_tuning_curves_continuous(fr, feat, 3)),
                 "decode": lambda: nap.decode_1d(tc, g, ep, 1.0),
@@ -162,6 +164,22 @@ def run(res, tier, seed):
                 if not H.snap_equal(s_before[j], H.snapshot(nap, o)):
                     res.violations.append({"key": {"op": "setitem", "part": "visible_through_other_object"}, "what": "item assignment on a derived series changed another object",
                                            "input": {"derived": k, "other": j}})
+        # item assignment into a member of a SELECTED group must not be visible in the parent group
+        gt = nap.TsGroup({0: nap.Tsd(np.arange(6.0), np.arange(6.0) + 1), 2: nap.Tsd(np.arange(6.0) + 0.5, np.arange(6.0) + 10), 5: nap.Tsd(np.arange(4.0), np.arange(4.0) + 20)},
+                         time_support=nap.IntervalSet(0.0, 10.0), metadata={"cat": [1, 1, 2]})
+        sels = {"keys": lambda: gt[[0, 2]], "mask": lambda: gt[np.array([True, False, True])], "getby_threshold": lambda: gt.getby_threshold("rate", 0.0),
+                "getby_category": lambda: gt.getby_category("cat")[1], "restrict": lambda: gt.restrict(nap.IntervalSet(0.0, 10.0)), "get": lambda: gt.get(0.0, 9.0)}
+        for sname, f in sels.items():
+            res.evaluations += 1
+            before = H.snapshot(nap, gt)
+            sub = f()
+            k0 = list(sub.keys())[0]
+            sub[k0][1] = -12345.0
+            if not H.snap_equal(before, H.snapshot(nap, gt)):
+                res.violations.append({"key": {"op": "setitem", "part": "visible_through_parent_group", "selection": sname},
+                                       "what": "item assignment into a member of a selected/derived TsGroup changed the parent group's member", "input": {"selection": sname}})
+                gt = nap.TsGroup({0: nap.Tsd(np.arange(6.0), np.arange(6.0) + 1), 2: nap.Tsd(np.arange(6.0) + 0.5, np.arange(6.0) + 10), 5: nap.Tsd(np.arange(4.0), np.arange(4.0) + 20)},
+                                 time_support=nap.IntervalSet(0.0, 10.0), metadata={"cat": [1, 1, 2]})
         m = fr.metadata
         m["m"] = [7, 8]
         if list(fr.metadata["m"]) != [1, 2]:
